@@ -2,6 +2,11 @@
 import numpy as np
 
 
+def vid(c):
+    """variant selector of a case: its number in the run that produced it (kept when the case is replayed)"""
+    return c.get("vid", c["cid"])
+
+
 def mk_tree(P, attr=None, xs=None, extra=None, unit=1.0, offset=(0.0, 0.0, 0.0)):
     """Tree from a topology P (parent ids) and per-node <<type, y, z, r>>; x carries the node's identity tag 100+i."""
     from swcgeom.core import Tree
@@ -29,7 +34,7 @@ def changed(t, snap):
         return 1
     for k, v in nd.items():
         w = t.ndata[k]
-        if w.shape != v.shape or w.dtype != v.dtype or not np.array_equal(w, v):
+        if w.shape != v.shape or w.dtype != v.dtype or not np.array_equal(w, v, equal_nan=(w.dtype.kind == 'f')):
             return 1
     return 0
 
